@@ -28,7 +28,7 @@
 (* HandlerName(Names[t]), t \in Cases[c]); `AttrCases[c]` is the set of    *)
 (* candidate attribute names of a handler table of the library itself;     *)
 (* `AttrMF`/`AttrTR`/`AttrDT` the attribute names of the base classes (so   *)
-(* PreMF/PreTR/PreDT are the handlers predefined by the base class).       *)
+(* premf/pretr are the types whose handler the base class predefines).    *)
 (* TLC checks the laws of HandlerName for every name over `Alphabet` up    *)
 (* to length `MaxLen` and for every registered name, the laws of Resolve   *)
 (* for every (type, case) and for every subset of every ancestor chain,    *)
@@ -83,12 +83,9 @@ NameLaws(w) ==
   /\ (\A i \in DOMAIN w : ~IsUpper(w[i])) => h = w
 NamesOver(A, n) == UNION {[1..m -> A] : m \in 1..n}
 
-HName == [t \in 1..NT |-> HandlerName(Names[t])]
-\* the types for which a table with the attribute names `attrs` defines a handler
-Defs(attrs) == {t \in 1..NT : HName[t] \in attrs}
-PreMF == Defs(AttrMF)
-PreTR == Defs(AttrTR)
-PreDT == Defs(AttrDT)
+HNameTab == [t \in 1..NT |-> HandlerName(Names[t])]
+\* the types for which a table with the attribute names `attrs` defines a handler (h: handler name per type)
+DefsOf(h, attrs) == {t \in 1..NT : h[t] \in attrs}
 
 \* ---- C3 linearisation of the UFL class graph ----
 RECURSIVE Merge(_)
@@ -102,10 +99,12 @@ RECURSIVE Lin(_)
 Lin(t) == <<t>> \o Merge([i \in 1..Len(Bases[t]) |-> Lin(Bases[t][i])] \o <<Bases[t]>>)
 LinTab == [ty \in 1..NT |-> Lin(ty)]
 
-\* The state: `lin` holds the linearisation table (computed once, in Init); k counts the cases whose
+\* The state: `lin` holds the linearisation table, `hn` the handler names and `premf`/`pretr` the types whose
+\* handler the algorithm base classes predefine (all computed once, in Init); k counts the cases whose
 \* predicted row has been printed, `cur` is case k.  One step = one case.
-VARIABLES lin, k, cur
-vars == <<lin, k, cur>>
+VARIABLES lin, hn, premf, pretr, k, cur
+vars == <<lin, hn, premf, pretr, k, cur>>
+Defs(attrs) == DefsOf(hn, attrs)
 
 L(ty) == lin[ty]
 Anc(ty) == Range(L(ty))                        \* reflexive ancestors
@@ -123,21 +122,22 @@ SetToSeq(S) == LET RECURSIVE F(_)
                IN F(S)
 Row(c, D) == [case |-> c,
               d  |-> SetToSeq(D),
-              mf |-> [ty \in 1..NT |-> Resolve(ty, D \cup PreMF)],
-              tr |-> [ty \in 1..NT |-> Resolve(ty, D \cup PreTR)]]
-ASSUME PreDT = PreMF
+              mf |-> [ty \in 1..NT |-> Resolve(ty, D \cup premf)],
+              tr |-> [ty \in 1..NT |-> Resolve(ty, D \cup pretr)]]
+ASSUME DefsOf(HNameTab, AttrDT) = DefsOf(HNameTab, AttrMF)
 \* two registered types never share a handler name (else a table could not tell them apart)
-ASSUME \A s, t \in 1..NT : s # t => HName[s] # HName[t]
+ASSUME LET h == HNameTab IN \A s, t \in 1..NT : s # t => h[s] # h[t]
 ASSUME \A t \in 1..NT : IsName(Names[t])
 
 NCases == Len(Cases) + Len(AttrCases)
 CaseSet(c) == IF c <= Len(Cases) THEN Cases[c] ELSE Defs(AttrCases[c - Len(Cases)])
 
 Init == /\ lin = LinTab /\ k = 0 /\ cur = {}
-        /\ PrintT(ToJson([lin |-> LinTab]))
-        /\ PrintT(ToJson([names |-> HName, premf |-> SetToSeq(PreMF), pretr |-> SetToSeq(PreTR), predt |-> SetToSeq(PreDT)]))
-NextCase == /\ k < NCases /\ k' = k + 1 /\ cur' = CaseSet(k + 1) /\ UNCHANGED lin
-            /\ PrintT(ToJson(Row(k + 1, CaseSet(k + 1))))
+        /\ hn = HNameTab /\ premf = DefsOf(hn, AttrMF) /\ pretr = DefsOf(hn, AttrTR)
+        /\ PrintT(ToJson([lin |-> lin]))
+        /\ PrintT(ToJson([names |-> hn, premf |-> SetToSeq(premf), pretr |-> SetToSeq(pretr), predt |-> SetToSeq(DefsOf(hn, AttrDT))]))
+NextCase == /\ k < NCases /\ k' = k + 1 /\ cur' = CaseSet(k + 1) /\ UNCHANGED <<lin, hn, premf, pretr>>
+            /\ PrintT(ToJson(Row(k + 1, cur')))
 Done == k = NCases /\ UNCHANGED vars
 Next == NextCase \/ Done
 Spec == Init /\ [][Next]_vars
